@@ -7,6 +7,7 @@ package main
 
 import (
 	"context"
+	"errors"
 	"fmt"
 	"os"
 	"path/filepath"
@@ -365,18 +366,37 @@ func snapshot(ctx context.Context, st state.CoreState) map[string]fullSnap {
 type flavour struct {
 	name string
 	new  func() (state.CoreState, func())
+	// faulty: the backing store can be armed to reject its next Put/Destroy (op "armfail")
+	faulty bool
 }
+
+// newFaulty builds the faulty flavour's state together with the switch of its backing store.
+func newFaulty() (state.CoreState, *bool) {
+	armed := new(bool)
+	log := &hx.Log{}
+	log.Hook = func(*hx.Commit) error {
+		if *armed {
+			*armed = false
+			return errStore
+		}
+		return nil
+	}
+	return hx.NewInmem(log), armed
+}
+
+var errStore = errors.New("injected backing store failure")
 
 var tmpSeq int
 
 func flavours() []flavour {
 	return []flavour{
-		{"inmem", func() (state.CoreState, func()) { return inmem.NewState(hx.NS), func() {} }},
-		{"namespaced", func() (state.CoreState, func()) { return namespaced.NewState(inmem.Build), func() {} }},
+		{"inmem", func() (state.CoreState, func()) { return inmem.NewState(hx.NS), func() {} }, false},
+		{"namespaced", func() (state.CoreState, func()) { return namespaced.NewState(inmem.Build), func() {} }, false},
 		{"filter-allow-all", func() (state.CoreState, func()) {
 			return state.Filter(namespaced.NewState(inmem.Build), func(context.Context, state.Access) error { return nil }), func() {}
-		}},
-		{"inmem+recording-store", func() (state.CoreState, func()) { return hx.NewInmem(&hx.Log{}), func() {} }},
+		}, false},
+		{"inmem+recording-store", func() (state.CoreState, func()) { return hx.NewInmem(&hx.Log{}), func() {} }, false},
+		{"inmem+failing-store", func() (state.CoreState, func()) { st, _ := newFaulty(); return st, func() {} }, true},
 		{"inmem+bbolt", func() (state.CoreState, func()) {
 			dir := filepath.Join(explore.Root(), ".build", "tmp")
 			os.MkdirAll(dir, 0o755)
@@ -395,7 +415,7 @@ func flavours() []flavour {
 			}
 			st := inmem.NewStateWithOptions(inmem.WithBackingStore(bs.WithNamespace(hx.NS)))(hx.NS)
 			return st, func() { bs.Close(); os.Remove(path) }
-		}},
+		}, false},
 	}
 }
 
@@ -405,11 +425,19 @@ type inst struct {
 	close func()
 	m     model
 	rich  bool
+	// faulty flavour: the store's switch and the model's copy of it
+	arm   *bool
+	armed bool
 }
 
 func (in *inst) Close() { in.close() }
 
-func (in *inst) Canon() string { return in.m.canon() }
+func (in *inst) Canon() string {
+	if in.armed {
+		return in.m.canon() + " [store armed to fail]"
+	}
+	return in.m.canon()
+}
 
 func (in *inst) Ops() []string {
 	var out []string
@@ -417,6 +445,9 @@ func (in *inst) Ops() []string {
 	for _, ow := range owners {
 		out = append(out, op{kind: "create", id: "a", owner: ow}.String())
 		out = append(out, op{kind: "destroy", id: "a", owner: ow}.String())
+	}
+	if in.arm != nil {
+		out = append(out, "armfail")
 	}
 	out = append(out, op{kind: "create", id: "b", owner: ""}.String(), op{kind: "destroy", id: "b", owner: ""}.String(),
 		op{kind: "update", id: "b", ver: "cur", owner: "", exp: "run", chg: "val"}.String(),
@@ -440,6 +471,11 @@ func (in *inst) Ops() []string {
 }
 
 func (in *inst) Apply(s string) string {
+	if s == "armfail" {
+		*in.arm = true
+		in.armed = true
+		return ""
+	}
 	o := parseOp(s)
 	before := snapshot(in.ctx, in.st)
 	ver := resolveVersion(in.m, o)
@@ -454,7 +490,18 @@ func (in *inst) Apply(s string) string {
 			return msg
 		}
 	}
-	if len(rs) == 0 {
+	storeFails := in.armed && len(rs) == 0 && (o.kind == "create" || o.kind == "update" || o.kind == "destroy")
+	if storeFails {
+		// every precondition holds, the backing store rejects the write: the call fails with that error
+		// and is a failed call like any other (nothing changes, also not in memory)
+		in.armed = false
+		if err == nil {
+			return fmt.Sprintf("the backing store rejected the write but %s reported success (state {%s})", s, in.m.canon())
+		}
+		if !errors.Is(err, errStore) {
+			return fmt.Sprintf("the backing store rejected the write but %s failed with %v", s, err)
+		}
+	} else if len(rs) == 0 {
 		if err != nil {
 			return fmt.Sprintf("must succeed in state {%s} but failed: %v", in.m.canon(), err)
 		}
@@ -529,6 +576,10 @@ func seqScenario(f flavour, depth int, rich bool) explore.Scenario {
 		Sequential: true,
 		Body: func(x *explore.X) {
 			res := seqx.BFS(func() seqx.Inst {
+				if f.faulty {
+					st, arm := newFaulty()
+					return &inst{ctx: context.Background(), st: st, close: func() {}, m: model{}, rich: rich, arm: arm}
+				}
 				st, cl := f.new()
 				return &inst{ctx: context.Background(), st: st, close: cl, m: model{}, rich: rich}
 			}, depth, 16, 3)
